@@ -4,6 +4,7 @@ Three monitors over exhaustive small bodies and random larger ones (all C04-lega
  1. soundness, path based: an accepted program must have no CFG path reaching a use without its declaration;
  2. verdict table from docs/errors.md (E402, E422/E424, E482);
  3. dynamic witness: accepted programs are executed and compared with the reference interpreter."""
+import itertools
 import json
 
 from . import common, gen_prog, gen_scope, interp, models
@@ -191,6 +192,24 @@ def run_case(case):
                                  "model": sorted(models.variable_model([("var", "x", I32, lit(0))] + b, ret_expr=X))}
             out.append(res)
         return out
+    if kind == "multigoto":
+        # several gotos to one label with declarations and uses between them, then the label and a use:
+        # all sequences of <= 5 statements over {if..goto a, var v, use v, {var v}, {use v}} + `a:` + {use v, nothing}
+        _, idx, n = case
+        alphabet = [("if", cond_true(), ("goto", "a"), None), V("v", 1), U("v"), ("block", [V("v", 1)]), ("block", [U("v")])]
+        i = 0
+        for k in range(1, 6):
+            for combo in itertools.product(alphabet, repeat=k):
+                if sum(1 for st in combo if st[0] == "if") < 2:
+                    continue
+                for tail in ([U("v")], []):
+                    i += 1
+                    if i % n != idx:
+                        continue
+                    res = check_body(list(combo) + [("label", "a")] + tail, 0)
+                    res.setdefault("cov", {})["multigoto_bodies"] = 1
+                    out.append(res)
+        return out
     if kind == "random":
         _, seed, i = case
         rng = common.rng_for(seed, PROP, "random", i)
@@ -234,6 +253,7 @@ def main(tier, seed, replay=None):
             shards = 1 if size <= 2 else n
             for idx in range(shards):
                 cases.append(("enum", which, size, 3, idx, shards))
+    cases += [("multigoto", idx, n) for idx in range(n)]
     nrand = 1500 if tier == "quick" else 60000
     cases += [("random", seed, i) for i in range(nrand)]
     for r in common.run_sharded(run_case, cases):
